@@ -311,6 +311,8 @@ def c20(ctx, t0):
     if want(ctx, 'real-agent'):
         ctx.build_agent()
         res.append(ctx.run_child('real-agent', [hx, 'c20agent'], T(ctx, 400, 1200)))
+    if ctx.tier == 'thorough' and want(ctx, 'memcheck'):
+        res.append(ctx.run_child('memcheck', [hx, 'c20'], 3000, extra_env={'VERIF_PAMH_VALGRIND': '1'}))
     floors = {'expected_success': (counters(res, 'expected_success'), 50), 'expected_failure': (counters(res, 'expected_failure'), 150),
               'requests_compared': (counters(res, 'requests_compared'), 100), 'class:reply-cut': (counters(res, 'class:reply-cut'), 20),
               'real_agent_cases': (counters(res, 'real_agent_cases'), 30), 'real_agent_store_accepts': (counters(res, 'real_agent_store_accepts'), 5)}
